@@ -629,11 +629,14 @@ async fn run_node(ctx: &Arc<RunCtx>) {
         max_ods_log2: *ctx.pick("cfg.max_ods_log2", &[1u8, 0, 2]),
     });
     let span_s = len * block_time_ms / 1000;
-    let sampling_window = Duration::from_secs(ctx.range("cfg.sampling_window_s", 60, span_s + 60));
+    // one long suspension without a restart: the wall clock jumps past the pruning window while
+    // the process keeps its state (short windows so that the chain outlasts the jump)
+    let suspend = ctx.coin("cfg.suspend", 200);
+    let sampling_window = Duration::from_secs(if suspend { ctx.range("cfg.sampling_window_s", 60, 60 + span_s / 6) } else { ctx.range("cfg.sampling_window_s", 60, span_s + 60) });
     let pruning_window = if ctx.coin("cfg.pruning_smaller", 300) {
         Duration::from_secs(ctx.range("cfg.pruning_window_s", 30, sampling_window.as_secs()))
     } else {
-        sampling_window + Duration::from_secs(ctx.range("cfg.pruning_extra_s", 0, 300))
+        sampling_window + Duration::from_secs(ctx.range("cfg.pruning_extra_s", 0, if suspend { 30 } else { 300 }))
     };
     let batch_size = *ctx.pick("cfg.batch_size", &[8u64, 3, 16, 64]);
     let limit = ctx.range("cfg.limit", 1, 4) as usize;
@@ -644,6 +647,7 @@ async fn run_node(ctx: &Arc<RunCtx>) {
     let p_never = if ctx.coin("cfg.sample_loss_on", 500) { ctx.range("cfg.p_never", 10, 150) as u32 } else { 0 };
     let churn = ctx.coin("cfg.churn", 400);
     let clock_jumps = ctx.coin("cfg.clock_jumps", 150);
+    let mut suspend_left = suspend as u32;
     let n_crashes = ctx.choose("cfg.crashes", if thorough { 5 } else { 4 });
     let fault_phase_s = ctx.range("cfg.fault_phase_s", 30, (future_blocks.saturating_sub(6) * block_time_ms / 1000).max(40));
     ctx.note("config", format!("len={len} sw={}s pw={}s batch={batch_size} limit={limit}+{extra} delay={max_delay}ms drop={p_drop} never={p_never} churn={churn} crashes={n_crashes} faults={fault_phase_s}s",
@@ -966,6 +970,17 @@ async fn run_node(ctx: &Arc<RunCtx>) {
                         }
                         if clock_jumps && ctx.coin("clock.jump", 15) {
                             ctx.jump_wall_clock(ctx.range("clock.jump_ms", 1, 60_000) as i64 * 1_000_000);
+                        }
+                        if suspend_left > 0 && ctx.coin("clock.suspend", 30) {
+                            let jump_ms = pruning_window.as_millis() as u64 + ctx.range("clock.suspend_extra_ms", 0, 30_000);
+                            if net.network_head() + jump_ms / block_time_ms + 8 < chain.len() {
+                                suspend_left -= 1;
+                                ctx.fault("suspended_longer_than_pruning_window");
+                                ctx.ev("clock.suspend", jump_ms, 0);
+                                ctx.jump_wall_clock(jump_ms as i64 * 1_000_000);
+                                // what was announced meanwhile is gone; gossip resumes at the head
+                                next_gossip_height = next_gossip_height.max(net.network_head());
+                            }
                         }
                         // ---- power loss
                         if crashes_left > 0 && ctx.now_ms() >= next_crash_ms {
